@@ -16,6 +16,8 @@ pub struct Plan {
     pub families: Vec<(Box<dyn Family>, u8)>,
     pub closures: Vec<(String, Vec<Box<dyn Family>>)>,
     pub root_groups: Option<Vec<&'static str>>,
+    /// depth of the trees below the feature-covering roots (None = not used)
+    pub feature_depth: Option<u8>,
 }
 
 /// `scale` divides the budgets for oracles that are several times more expensive per state.
@@ -68,6 +70,16 @@ pub fn standard_plan(tier: Tier, scale: u64) -> Plan {
         families,
         closures: vec![],
         root_groups: None,
+        feature_depth: Some(match tier {
+            Tier::Quick => {
+                if scale >= 2 {
+                    1
+                } else {
+                    2
+                }
+            }
+            Tier::Thorough => 2,
+        }),
     }
 }
 
@@ -135,6 +147,18 @@ pub fn run_plan<O: PosOracle>(run: &Arc<Run>, oracle: &Arc<O>, plan: &Plan) {
         tree_notes.push(json!({"depth": d, "roots": rs.len(), "unique_states": st.unique, "arrivals": st.generated, "seconds": run.elapsed() - t0}));
         if let Some(r) = rs.first() {
             run.sample(json!({"kind": "tree root", "fen": r.fen(), "explored_to_depth": d}));
+        }
+    }
+    if let Some(fd) = plan.feature_depth {
+        if !run.has_violation() && !run.over_budget() {
+            let fr = feature_roots();
+            let t0 = run.elapsed();
+            let st = explore_tree(run, oracle, &fr, fd, plan.dfs);
+            run.note("feature_root_trees", json!({"roots": fr.len(), "depth": fd, "unique_states": st.unique, "arrivals": st.generated, "seconds": run.elapsed() - t0,
+                "what": "one position per feature signature (check kind x pins x en-passant state x castling state x promotion x classes of illegal pseudo-moves), found by a reference-only BFS to depth 4 below 12 opening lines and the dense curated roots"}));
+            if let Some(r) = fr.get((run.seed as usize * 131 + 17) % fr.len().max(1)) {
+                run.sample(json!({"kind": "feature root", "fen": r.fen(), "explored_to_depth": fd}));
+            }
         }
     }
     run.note("trees", json!({"roots": nroots, "per_root_leaf_budget": plan.tree_budget, "groups": tree_notes, "search": if plan.dfs {"stateright spawn_dfs"} else {"stateright spawn_bfs"}}));
